@@ -51,6 +51,12 @@ ORDERING_VALUES = {"Less": -1, "Equal": 0, "Greater": 1}
 # --------------------------------------------------------------------------
 
 def dump_mir(force=False):
+    from vcommon import overlay_lock
+    with overlay_lock("mir"):
+        return _dump_mir(force)
+
+
+def _dump_mir(force=False):
     ov, tree_hash, _ = build_overlay("mir", [])
     os.makedirs(MIR_DIR, exist_ok=True)
     out = os.path.join(MIR_DIR, "lib-%s.mir" % tree_hash[:24])
@@ -65,7 +71,7 @@ def dump_mir(force=False):
            "--target-dir", MIR_TARGET, "--", "-Zunpretty=mir",
            "-C", "debug-assertions=off", "-C", "overflow-checks=on"]
     env = dict(ENV)
-    tmp = out + ".tmp"
+    tmp = out + ".%d.tmp" % os.getpid()
     with open(tmp, "w") as f:
         p = subprocess.run(cmd, cwd=ov, env=env, stdout=f, stderr=subprocess.PIPE, text=True)
     if p.returncode != 0 or os.path.getsize(tmp) < 100000:
